@@ -423,6 +423,56 @@ def same_input_merge_rule(cx, rep, rid):
     rep.floor(rid, "classes that parse one input with several child validators", n, 2)
 
 
+# ---------------------------------------------------------------------------------------------------- C12.15
+def received_is_not_the_label_rule(cx, rep, rid):
+    """`received` is the value found at the reported path.  A reporter that pushes the path segment K (a plain property
+    name or index: the position of `input[K]`) and then hands K ITSELF to a child reporter / buildError reports the
+    label as the received value.  (Map / Set reporters push made-up labels - `key(..)`, `value(..)` - which name the
+    key as a position of its own; those are template strings, not the bare key.)  Decided: between `pushPath(ctx, K)`
+    and the matching `popPath(ctx)` in one statement list, with K a bare identifier, no `<x>.reportDecodeError(ctx, K)`
+    / `buildError(ctx, .., K)` receives K."""
+    from rules.ts_common import Family
+    fam = Family(cx)
+    mod = fam.mod
+    n = 0
+    for cname, c in sorted(fam.classes.items()):
+        m = c.methods.get("reportDecodeError")
+        if not m or m.get("function") is None or m["function"].get("body") is None:
+            continue
+        for b in twalk(m["function"]):
+            if b["type"] != "BlockStatement":
+                continue
+            sts = b.get("stmts") or []
+            label = None
+            for st in sts:
+                e = unparen(st.get("expression", {})) if st["type"] == "ExpressionStatement" else {}
+                if e.get("type") == "CallExpression" and ts_s(e["callee"]) == "pushPath" and len(e["arguments"]) >= 2:
+                    a = unparen(e["arguments"][1]["expression"])
+                    label = a["value"] if a.get("type") == "Identifier" else None
+                    continue
+                if e.get("type") == "CallExpression" and ts_s(e["callee"]) == "popPath":
+                    label = None
+                    continue
+                if label is None:
+                    continue
+                for x in twalk(st):
+                    if x["type"] != "CallExpression":
+                        continue
+                    cal = ts_s(x["callee"])
+                    if cal.endswith(".reportDecodeError") and len(x["arguments"]) >= 2:
+                        recv = unparen(x["arguments"][1]["expression"])
+                    elif cal == "buildError" and len(x["arguments"]) >= 3:
+                        recv = unparen(x["arguments"][2]["expression"])
+                    else:
+                        continue
+                    n += 1
+                    bad = recv.get("type") == "Identifier" and recv["value"] == label
+                    rep.ob(rid, "%s.reportDecodeError/received-is-the-label/%s" % (cname, cal.rsplit(".", 2)[-2] if "." in cal else cal), not bad,
+                           "%s.reportDecodeError pushes the path segment `%s` and reports `%s` itself as the received value (%s): the path addresses `input[%s]`, so `received` is not the value found there" % (cname, label, label, cal, label),
+                           mod.loc(x), sample={"class": cname, "label": label})
+    rep.floor(rid, "reports made under a pushed property / index segment", n, 2)
+
+
 REGISTRY = {
     "C03": [("C03.24", "the results of several child validators for the SAME input are combined by the deep merge, never by a shallow spread", same_input_merge_rule)],
     "C13": [("C13.14", "a method that fills the block buffer compresses a full block before it returns (the padding byte always fits)", fill_level_rule)],
@@ -431,6 +481,7 @@ REGISTRY = {
             ("C07.18", "the union accumulator drops a member only by a payload-precise test", union_absorption_rule)],
     "C11": [("C11.10", "object members of an intersection reach the runtime merged: a raw intersection node is constructed by the merging smart constructor only (= C07.17)", raw_intersection_rule)],
     "C01": [("C01.29", "the union accumulator drops a member only by a payload-precise test (= C07.18)", union_absorption_rule)],
-    "C12": [("C12.14", "a reporter never takes a nested union error apart (its branch errors carry paths relative to it)", union_error_intact_rule)],
+    "C12": [("C12.15", "under a pushed property / index segment the received value is the value at that segment, never the segment itself", received_is_not_the_label_rule),
+            ("C12.14", "a reporter never takes a nested union error apart (its branch errors carry paths relative to it)", union_error_intact_rule)],
     "C15": [("C15.19", "`Array<T>` lowers to an array node for every T: the spelling describe() gives a tuple rest compiles again", array_spelling_rule)],
 }
